@@ -187,6 +187,15 @@ def step (d : DState) (opLine : String) (impl : String) : DState × StepOut :=
   | ["flow", _, _, _] => (d, { model := "ok" })     -- flow fed to the hot-region schedulers (no model)
   | ["sflow", _, _, _] => (d, { model := "ok" })
   | "scatter" :: rid :: group :: rest => scatterStep d (natArg rid) (dash group) (rest.contains "dry=1") impl
+  | "scatter2" :: ridX :: gX :: ridY :: gY :: _ =>
+    -- two overlapping requests: X parked inside selectCandidates (after it built its filter list, before it
+    -- read any counter) while Y runs completely = Y, then X; observation `<Y> ;; <X>`
+    match impl.splitOn " ;; " with
+    | [obsY, obsX] =>
+      let (d1, outY) := scatterStep d (natArg ridY) (dash gY) false obsY
+      let (d2, outX) := scatterStep d1 (natArg ridX) (dash gX) false obsX
+      (d2, { model := outY.model ++ " ;; " ++ outX.model, fails := outY.fails ++ outX.fails })
+    | _ => (d, { model := "bad-scatter2" })
   | ["put", group, leader, sts] =>
     -- RegionScatterer.Put: an earlier decision of the group
     let ids := natList sts
